@@ -881,6 +881,11 @@ def run(run):
         {"fresh": True, "items": {}, "curves": [["DEPT", "m", "float", ["1.0", "2.0", "3.0"]], ["T", "", "text", ["a", "b,c", 'q"r']]]},
         {"fresh": True, "items": {}, "curves": [["T", "", "text", ["a", "", "l1\nl2"]]]},
         {"fresh": True, "items": {}, "curves": [["DEPT", "ft", "int", ["1", "2"]], ["", "", "float", ["nan", "nan"]], ["", "", "float", ["0.1", "1e-07"]]]},
+        # regression (fixed 17e170b): a stale suffix (X1:3 after the second X1 is deleted) and NO rows -- an empty set_data renames nothing
+        {"fresh": True, "items": {}, "curves": [["DEPT", "", "float", []], ["X1", "", "float", []], ["X1", "", "float", []], ["a", "", "float", []],
+                                                ["X1", "", "float", []]], "delete": [2]},
+        {"fresh": True, "items": {}, "curves": [["DEPT", "", "float", ["1.0"]], ["X1", "", "float", ["2.0"]], ["X1", "", "float", ["3.0"]],
+                                                ["a", "", "float", ["4.0"]], ["X1", "", "float", ["5.0"]]], "delete": [2]},
     ]
     for spec in fixed:
         check_object(run, spec, pend, "fixed", excel=True)
